@@ -2,12 +2,16 @@ package metrics
 
 import (
 	vm "github.com/VictoriaMetrics/metrics"
+	"github.com/tevino/abool"
 )
 
 // Counter is a counter metric.
 type Counter struct {
 	*metricBase
 	*vm.Counter
+
+	// stateLoaded is set when the persisted value was added to the counter.
+	stateLoaded abool.AtomicBool
 }
 
 // NewCounter registers a new counter metric.
